@@ -2400,6 +2400,18 @@ namespace igris
         typename igris::aligned_storage<sizeof(T), alignof(T)>::type _data[N];
         igris::size_t m_size = 0;
 
+        // While a constructor of static_vector runs, the destructor would not:
+        // if an element constructor throws, destroy what has been built so far.
+        struct construction_guard
+        {
+            static_vector *self;
+            ~construction_guard()
+            {
+                if (self)
+                    self->clear();
+            }
+        };
+
     public:
         static_vector()
         {
@@ -2408,20 +2420,24 @@ namespace igris
 
         static_vector(const static_vector &other)
         {
-            m_size = other.m_size;
-            for (igris::size_t pos = 0; pos < m_size; ++pos)
+            construction_guard guard{this};
+            while (m_size < other.m_size)
             {
-                new (&_data[pos]) T(other[pos]);
+                new (&_data[m_size]) T(other[m_size]);
+                ++m_size;
             }
+            guard.self = nullptr;
         }
 
         static_vector(static_vector &&other)
         {
-            m_size = other.m_size;
-            for (igris::size_t pos = 0; pos < m_size; ++pos)
+            construction_guard guard{this};
+            while (m_size < other.m_size)
             {
-                new (&_data[pos]) T(igris::move(other[pos]));
+                new (&_data[m_size]) T(igris::move(other[m_size]));
+                ++m_size;
             }
+            guard.self = nullptr;
         }
 
         static_vector &operator=(const static_vector &other)
